@@ -40,6 +40,11 @@ pat(r"if \(\+\+start == end\) return (\S+)_OK;", lambda m: [Ev("ADV", "direct"),
 pat(r"if \(\(\*start\) == end\) return (\S+)_OK;", lambda m: [Ev("CMP_END", "indirect"), Ev("RET", "OK", "cond")])
 pat(r"if \(\*start == end\) return (\S+)_OK;", lambda m: [Ev("CMP_END", "indirect"), Ev("RET", "OK", "cond")])
 pat(r"if \(start == end\) return (\S+)_OK;", lambda m: [Ev("CMP_END", "direct"), Ev("RET", "OK", "cond")])
+# entry test of feed(): an empty chunk changes nothing - FAIL stays FAIL (state is the fail state), otherwise OK
+pat(r"if \((\*start|start|" + H + r") == end\) return state->state == \[\[STATEIDX\((.*)\)\]\] \? (\S+)_FAIL : (\S+)_OK;",
+    lambda m: [Ev("CMP_END", {"*start": "indirect", "start": "direct"}.get(m.group(1), "entry")), Ev("RET_ENTRY_EMPTY", m.group(2))])
+pat(r"if \((\*start|start|" + H + r") == end\) return state->state == (.*) \? (\S+)_FAIL : (\S+)_OK;",
+    lambda m: [Ev("CMP_END", {"*start": "indirect", "start": "direct"}.get(m.group(1), "entry")), Ev("RET_ENTRY_EMPTY", m.group(2))])
 pat(r"inval = \*\*start;", lambda m: [Ev("RELOAD", "indirect")])
 pat(r"inval = \*start;", lambda m: [Ev("RELOAD", "direct")])
 pat(r"uint8_t inval = \*\*start;", lambda m: [Ev("DECL", "inval"), Ev("RELOAD", "indirect")])
